@@ -617,7 +617,7 @@ fn h_enc_load_auth_refines() {
 //@ props: C01 C02 C03 C04 C06 C08 C10 C11 C13
 //@ scaled: yes
 //@ functions: layers::encrypt::EncryptionLayerInternal::load_in_cache (real body); layers::encrypt::build_nonce; subtle ct_eq on the 16-byte tag
-//@ bounds: SCALED build (feature mla_verif: chunk = 4 bytes, tag = 16 bytes unchanged); source whose first and third reads deliver at most 7 bytes (fewer than a tag, fewer than asked); inner length n <= 3*20+64, any start position q <= n (so every remaining length 0..=3 chunks incl. 1..15 bytes), any chunk counter, arbitrary previous cache
+//@ bounds: SCALED build (feature mla_verif: chunk = 4 bytes, tag = 16 bytes unchanged); source one of whose reads delivers at most 7 bytes (auth: the chunk read; unauth: the read skipping the tag); inner length n <= 3*20+64, any start position q <= n (so every remaining length 0..=3 chunks incl. 1..15 bytes), any chunk counter, arbitrary previous cache
 //@ stubs: AesGcm256::new -> same struct via model constructors + ghost log; AesGcm256::decrypt -> IDEAL MAC (tag matches iff chunk authentic); alloc::io::default_read_to_end -> exactly two reads into spare capacity; alloc::fmt::format; From<mla::Error> for io::Error
 //@ outside: that AES-GCM is a secure MAC
 //@ replay: verif_replay_encrypt::enc_load short=1 q:u64 n:u64 ccn:u32 auth:bool
@@ -713,7 +713,7 @@ fn h_enc_load_unauth_refines() {
 //@ props: C02 C04 C05 C13
 //@ scaled: yes
 //@ functions: layers::encrypt::EncryptionLayerInternal::load_in_cache_unauthenticated (real body); AesGcm256::decrypt_unauthenticated over the model keystream
-//@ bounds: SCALED build (chunk = 4 bytes, tag 16); source whose first and third reads deliver at most 7 bytes (fewer than a tag, fewer than asked); inner length n <= 3*20+64, any start q <= n (every remaining length incl. a cut inside data or inside a tag), any chunk counter, arbitrary previous cache
+//@ bounds: SCALED build (chunk = 4 bytes, tag 16); source one of whose reads delivers at most 7 bytes (auth: the chunk read; unauth: the read skipping the tag); inner length n <= 3*20+64, any start q <= n (every remaining length incl. a cut inside data or inside a tag), any chunk counter, arbitrary previous cache
 //@ stubs: AesGcm256::new -> same struct via model constructors + ghost log; alloc::io::default_read_to_end -> exactly two reads into spare capacity; std::io::copy -> single read + write_all; alloc::fmt::format; From<mla::Error> for io::Error
 //@ outside: -
 //@ replay: verif_replay_encrypt::enc_load_unauth short=1 q:u64 n:u64 ccn:u32
@@ -738,6 +738,7 @@ fn load_unauth_body(short: bool) {
     kani::assume(cl <= SPEC_CHUNK && cp <= SPEC_CHUNK);
     let mut src = Abs::new(n, q);
     src.short_reads = short;
+    src.short_mask = 0b010; // the data read is complete, the read that skips the tag is short
     let mut l = mk_internal(src, ccn, cl, cp);
     let rem = n - q;
     kani::cover!(rem == 0, "nothing left");
@@ -1137,7 +1138,7 @@ fn mk_writer(off: u64, ctr: u32, key: Key, prefix: [u8; NONCE_SIZE], pending: [u
 /// the writer's sink is behind a trait object: observe it through ghost statics
 static mut W_SINK: *const Rec = core::ptr::null();
 
-//@ props: C01 C06 C07
+//@ props: C01 C06 C07 C13
 //@ scaled: yes
 //@ functions: <layers::encrypt::EncryptionLayerWriter<W> as std::io::Write>::write; build_nonce; AesGcm256::encrypt over model primitives
 //@ bounds: SCALED build (chunk 4, cipher buffer 3); CONCRETE chunk offset 0 and buffer length 0 (one of 11 enumerated size pairs); symbolic data bytes, key, nonce prefix, chunk counter < 2^32-1, pending GHASH bytes
@@ -1154,7 +1155,7 @@ fn h_enc_w_0_0() {
     writer_step_body(0, 0);
 }
 
-//@ props: C01 C06 C07
+//@ props: C01 C06 C07 C13
 //@ scaled: yes
 //@ functions: <layers::encrypt::EncryptionLayerWriter<W> as std::io::Write>::write; build_nonce; AesGcm256::encrypt over model primitives
 //@ bounds: SCALED build (chunk 4, cipher buffer 3); CONCRETE chunk offset 0 and buffer length 1 (one of 11 enumerated size pairs); symbolic data bytes, key, nonce prefix, chunk counter < 2^32-1, pending GHASH bytes
@@ -1171,7 +1172,7 @@ fn h_enc_w_0_1() {
     writer_step_body(0, 1);
 }
 
-//@ props: C01 C06 C07
+//@ props: C01 C06 C07 C13
 //@ scaled: yes
 //@ functions: <layers::encrypt::EncryptionLayerWriter<W> as std::io::Write>::write; build_nonce; AesGcm256::encrypt over model primitives
 //@ bounds: SCALED build (chunk 4, cipher buffer 3); CONCRETE chunk offset 0 and buffer length 3 (one of 11 enumerated size pairs); symbolic data bytes, key, nonce prefix, chunk counter < 2^32-1, pending GHASH bytes
@@ -1188,7 +1189,7 @@ fn h_enc_w_0_3() {
     writer_step_body(0, 3);
 }
 
-//@ props: C01 C06 C07
+//@ props: C01 C06 C07 C13
 //@ scaled: yes
 //@ functions: <layers::encrypt::EncryptionLayerWriter<W> as std::io::Write>::write; build_nonce; AesGcm256::encrypt over model primitives
 //@ bounds: SCALED build (chunk 4, cipher buffer 3); CONCRETE chunk offset 0 and buffer length 6 (one of 11 enumerated size pairs); symbolic data bytes, key, nonce prefix, chunk counter < 2^32-1, pending GHASH bytes
@@ -1205,7 +1206,7 @@ fn h_enc_w_0_6() {
     writer_step_body(0, 6);
 }
 
-//@ props: C01 C06 C07
+//@ props: C01 C06 C07 C13
 //@ scaled: yes
 //@ functions: <layers::encrypt::EncryptionLayerWriter<W> as std::io::Write>::write; build_nonce; AesGcm256::encrypt over model primitives
 //@ bounds: SCALED build (chunk 4, cipher buffer 3); CONCRETE chunk offset 2 and buffer length 1 (one of 11 enumerated size pairs); symbolic data bytes, key, nonce prefix, chunk counter < 2^32-1, pending GHASH bytes
@@ -1222,7 +1223,7 @@ fn h_enc_w_2_1() {
     writer_step_body(2, 1);
 }
 
-//@ props: C01 C06 C07
+//@ props: C01 C06 C07 C13
 //@ scaled: yes
 //@ functions: <layers::encrypt::EncryptionLayerWriter<W> as std::io::Write>::write; build_nonce; AesGcm256::encrypt over model primitives
 //@ bounds: SCALED build (chunk 4, cipher buffer 3); CONCRETE chunk offset 2 and buffer length 6 (one of 11 enumerated size pairs); symbolic data bytes, key, nonce prefix, chunk counter < 2^32-1, pending GHASH bytes
@@ -1239,7 +1240,7 @@ fn h_enc_w_2_6() {
     writer_step_body(2, 6);
 }
 
-//@ props: C01 C06 C07
+//@ props: C01 C06 C07 C13
 //@ scaled: yes
 //@ functions: <layers::encrypt::EncryptionLayerWriter<W> as std::io::Write>::write; build_nonce; AesGcm256::encrypt over model primitives
 //@ bounds: SCALED build (chunk 4, cipher buffer 3); CONCRETE chunk offset 3 and buffer length 1 (one of 11 enumerated size pairs); symbolic data bytes, key, nonce prefix, chunk counter < 2^32-1, pending GHASH bytes
@@ -1256,7 +1257,7 @@ fn h_enc_w_3_1() {
     writer_step_body(3, 1);
 }
 
-//@ props: C01 C06 C07
+//@ props: C01 C06 C07 C13
 //@ scaled: yes
 //@ functions: <layers::encrypt::EncryptionLayerWriter<W> as std::io::Write>::write; build_nonce; AesGcm256::encrypt over model primitives
 //@ bounds: SCALED build (chunk 4, cipher buffer 3); CONCRETE chunk offset 3 and buffer length 5 (one of 11 enumerated size pairs); symbolic data bytes, key, nonce prefix, chunk counter < 2^32-1, pending GHASH bytes
@@ -1273,7 +1274,7 @@ fn h_enc_w_3_5() {
     writer_step_body(3, 5);
 }
 
-//@ props: C01 C06 C07
+//@ props: C01 C06 C07 C13
 //@ scaled: yes
 //@ functions: <layers::encrypt::EncryptionLayerWriter<W> as std::io::Write>::write (roll-over arm); EncryptionLayerWriter::renew_cipher; AesGcm256::into_tag; build_nonce; AesGcm256::encrypt over model primitives
 //@ bounds: SCALED build (chunk 4, cipher buffer 3); CONCRETE chunk offset 4 (chunk full: roll-over due) and buffer length 0 (one of 11 enumerated size pairs); symbolic data bytes, key, nonce prefix, chunk counter < 2^32-1, pending GHASH bytes
@@ -1290,7 +1291,7 @@ fn h_enc_w_4_0() {
     writer_step_body(4, 0);
 }
 
-//@ props: C01 C06 C07
+//@ props: C01 C06 C07 C13
 //@ scaled: yes
 //@ functions: <layers::encrypt::EncryptionLayerWriter<W> as std::io::Write>::write (roll-over arm); EncryptionLayerWriter::renew_cipher; AesGcm256::into_tag; build_nonce; AesGcm256::encrypt over model primitives
 //@ bounds: SCALED build (chunk 4, cipher buffer 3); CONCRETE chunk offset 4 (chunk full: roll-over due) and buffer length 1 (one of 11 enumerated size pairs); symbolic data bytes, key, nonce prefix, chunk counter < 2^32-1, pending GHASH bytes
@@ -1307,7 +1308,7 @@ fn h_enc_w_4_1() {
     writer_step_body(4, 1);
 }
 
-//@ props: C01 C06 C07
+//@ props: C01 C06 C07 C13
 //@ scaled: yes
 //@ functions: <layers::encrypt::EncryptionLayerWriter<W> as std::io::Write>::write (roll-over arm); EncryptionLayerWriter::renew_cipher; AesGcm256::into_tag; build_nonce; AesGcm256::encrypt over model primitives
 //@ bounds: SCALED build (chunk 4, cipher buffer 3); CONCRETE chunk offset 4 (chunk full: roll-over due) and buffer length 6 (one of 11 enumerated size pairs); symbolic data bytes, key, nonce prefix, chunk counter < 2^32-1, pending GHASH bytes
@@ -1324,7 +1325,7 @@ fn h_enc_w_4_6() {
     writer_step_body(4, 6);
 }
 
-//@ props: C01 C06 C07
+//@ props: C01 C06 C07 C13
 //@ scaled: yes
 //@ tier: thorough
 //@ functions: <layers::encrypt::EncryptionLayerWriter<W> as std::io::Write>::write; build_nonce; AesGcm256::encrypt over model primitives
@@ -1342,7 +1343,7 @@ fn h_enc_w_0_2() {
     writer_step_body(0, 2);
 }
 
-//@ props: C01 C06 C07
+//@ props: C01 C06 C07 C13
 //@ scaled: yes
 //@ tier: thorough
 //@ functions: <layers::encrypt::EncryptionLayerWriter<W> as std::io::Write>::write; build_nonce; AesGcm256::encrypt over model primitives
@@ -1360,7 +1361,7 @@ fn h_enc_w_0_4() {
     writer_step_body(0, 4);
 }
 
-//@ props: C01 C06 C07
+//@ props: C01 C06 C07 C13
 //@ scaled: yes
 //@ tier: thorough
 //@ functions: <layers::encrypt::EncryptionLayerWriter<W> as std::io::Write>::write; build_nonce; AesGcm256::encrypt over model primitives
@@ -1378,7 +1379,7 @@ fn h_enc_w_0_5() {
     writer_step_body(0, 5);
 }
 
-//@ props: C01 C06 C07
+//@ props: C01 C06 C07 C13
 //@ scaled: yes
 //@ tier: thorough
 //@ functions: <layers::encrypt::EncryptionLayerWriter<W> as std::io::Write>::write; build_nonce; AesGcm256::encrypt over model primitives
@@ -1396,7 +1397,7 @@ fn h_enc_w_1_0() {
     writer_step_body(1, 0);
 }
 
-//@ props: C01 C06 C07
+//@ props: C01 C06 C07 C13
 //@ scaled: yes
 //@ tier: thorough
 //@ functions: <layers::encrypt::EncryptionLayerWriter<W> as std::io::Write>::write; build_nonce; AesGcm256::encrypt over model primitives
@@ -1414,7 +1415,7 @@ fn h_enc_w_1_1() {
     writer_step_body(1, 1);
 }
 
-//@ props: C01 C06 C07
+//@ props: C01 C06 C07 C13
 //@ scaled: yes
 //@ tier: thorough
 //@ functions: <layers::encrypt::EncryptionLayerWriter<W> as std::io::Write>::write; build_nonce; AesGcm256::encrypt over model primitives
@@ -1432,7 +1433,7 @@ fn h_enc_w_1_2() {
     writer_step_body(1, 2);
 }
 
-//@ props: C01 C06 C07
+//@ props: C01 C06 C07 C13
 //@ scaled: yes
 //@ tier: thorough
 //@ functions: <layers::encrypt::EncryptionLayerWriter<W> as std::io::Write>::write; build_nonce; AesGcm256::encrypt over model primitives
@@ -1450,7 +1451,7 @@ fn h_enc_w_1_3() {
     writer_step_body(1, 3);
 }
 
-//@ props: C01 C06 C07
+//@ props: C01 C06 C07 C13
 //@ scaled: yes
 //@ tier: thorough
 //@ functions: <layers::encrypt::EncryptionLayerWriter<W> as std::io::Write>::write; build_nonce; AesGcm256::encrypt over model primitives
@@ -1468,7 +1469,7 @@ fn h_enc_w_1_4() {
     writer_step_body(1, 4);
 }
 
-//@ props: C01 C06 C07
+//@ props: C01 C06 C07 C13
 //@ scaled: yes
 //@ tier: thorough
 //@ functions: <layers::encrypt::EncryptionLayerWriter<W> as std::io::Write>::write; build_nonce; AesGcm256::encrypt over model primitives
@@ -1486,7 +1487,7 @@ fn h_enc_w_1_5() {
     writer_step_body(1, 5);
 }
 
-//@ props: C01 C06 C07
+//@ props: C01 C06 C07 C13
 //@ scaled: yes
 //@ tier: thorough
 //@ functions: <layers::encrypt::EncryptionLayerWriter<W> as std::io::Write>::write; build_nonce; AesGcm256::encrypt over model primitives
@@ -1504,7 +1505,7 @@ fn h_enc_w_1_6() {
     writer_step_body(1, 6);
 }
 
-//@ props: C01 C06 C07
+//@ props: C01 C06 C07 C13
 //@ scaled: yes
 //@ tier: thorough
 //@ functions: <layers::encrypt::EncryptionLayerWriter<W> as std::io::Write>::write; build_nonce; AesGcm256::encrypt over model primitives
@@ -1522,7 +1523,7 @@ fn h_enc_w_2_0() {
     writer_step_body(2, 0);
 }
 
-//@ props: C01 C06 C07
+//@ props: C01 C06 C07 C13
 //@ scaled: yes
 //@ tier: thorough
 //@ functions: <layers::encrypt::EncryptionLayerWriter<W> as std::io::Write>::write; build_nonce; AesGcm256::encrypt over model primitives
@@ -1540,7 +1541,7 @@ fn h_enc_w_2_2() {
     writer_step_body(2, 2);
 }
 
-//@ props: C01 C06 C07
+//@ props: C01 C06 C07 C13
 //@ scaled: yes
 //@ tier: thorough
 //@ functions: <layers::encrypt::EncryptionLayerWriter<W> as std::io::Write>::write; build_nonce; AesGcm256::encrypt over model primitives
@@ -1558,7 +1559,7 @@ fn h_enc_w_2_3() {
     writer_step_body(2, 3);
 }
 
-//@ props: C01 C06 C07
+//@ props: C01 C06 C07 C13
 //@ scaled: yes
 //@ tier: thorough
 //@ functions: <layers::encrypt::EncryptionLayerWriter<W> as std::io::Write>::write; build_nonce; AesGcm256::encrypt over model primitives
@@ -1576,7 +1577,7 @@ fn h_enc_w_2_4() {
     writer_step_body(2, 4);
 }
 
-//@ props: C01 C06 C07
+//@ props: C01 C06 C07 C13
 //@ scaled: yes
 //@ tier: thorough
 //@ functions: <layers::encrypt::EncryptionLayerWriter<W> as std::io::Write>::write; build_nonce; AesGcm256::encrypt over model primitives
@@ -1594,7 +1595,7 @@ fn h_enc_w_2_5() {
     writer_step_body(2, 5);
 }
 
-//@ props: C01 C06 C07
+//@ props: C01 C06 C07 C13
 //@ scaled: yes
 //@ tier: thorough
 //@ functions: <layers::encrypt::EncryptionLayerWriter<W> as std::io::Write>::write; build_nonce; AesGcm256::encrypt over model primitives
@@ -1612,7 +1613,7 @@ fn h_enc_w_3_0() {
     writer_step_body(3, 0);
 }
 
-//@ props: C01 C06 C07
+//@ props: C01 C06 C07 C13
 //@ scaled: yes
 //@ tier: thorough
 //@ functions: <layers::encrypt::EncryptionLayerWriter<W> as std::io::Write>::write; build_nonce; AesGcm256::encrypt over model primitives
@@ -1630,7 +1631,7 @@ fn h_enc_w_3_2() {
     writer_step_body(3, 2);
 }
 
-//@ props: C01 C06 C07
+//@ props: C01 C06 C07 C13
 //@ scaled: yes
 //@ tier: thorough
 //@ functions: <layers::encrypt::EncryptionLayerWriter<W> as std::io::Write>::write; build_nonce; AesGcm256::encrypt over model primitives
@@ -1648,7 +1649,7 @@ fn h_enc_w_3_3() {
     writer_step_body(3, 3);
 }
 
-//@ props: C01 C06 C07
+//@ props: C01 C06 C07 C13
 //@ scaled: yes
 //@ tier: thorough
 //@ functions: <layers::encrypt::EncryptionLayerWriter<W> as std::io::Write>::write; build_nonce; AesGcm256::encrypt over model primitives
@@ -1666,7 +1667,7 @@ fn h_enc_w_3_4() {
     writer_step_body(3, 4);
 }
 
-//@ props: C01 C06 C07
+//@ props: C01 C06 C07 C13
 //@ scaled: yes
 //@ tier: thorough
 //@ functions: <layers::encrypt::EncryptionLayerWriter<W> as std::io::Write>::write; build_nonce; AesGcm256::encrypt over model primitives
@@ -1684,7 +1685,7 @@ fn h_enc_w_3_6() {
     writer_step_body(3, 6);
 }
 
-//@ props: C01 C06 C07
+//@ props: C01 C06 C07 C13
 //@ scaled: yes
 //@ tier: thorough
 //@ functions: <layers::encrypt::EncryptionLayerWriter<W> as std::io::Write>::write (roll-over arm); EncryptionLayerWriter::renew_cipher; AesGcm256::into_tag; build_nonce; AesGcm256::encrypt over model primitives
@@ -1702,7 +1703,7 @@ fn h_enc_w_4_2() {
     writer_step_body(4, 2);
 }
 
-//@ props: C01 C06 C07
+//@ props: C01 C06 C07 C13
 //@ scaled: yes
 //@ tier: thorough
 //@ functions: <layers::encrypt::EncryptionLayerWriter<W> as std::io::Write>::write (roll-over arm); EncryptionLayerWriter::renew_cipher; AesGcm256::into_tag; build_nonce; AesGcm256::encrypt over model primitives
@@ -1720,7 +1721,7 @@ fn h_enc_w_4_3() {
     writer_step_body(4, 3);
 }
 
-//@ props: C01 C06 C07
+//@ props: C01 C06 C07 C13
 //@ scaled: yes
 //@ tier: thorough
 //@ functions: <layers::encrypt::EncryptionLayerWriter<W> as std::io::Write>::write (roll-over arm); EncryptionLayerWriter::renew_cipher; AesGcm256::into_tag; build_nonce; AesGcm256::encrypt over model primitives
@@ -1738,7 +1739,7 @@ fn h_enc_w_4_4() {
     writer_step_body(4, 4);
 }
 
-//@ props: C01 C06 C07
+//@ props: C01 C06 C07 C13
 //@ scaled: yes
 //@ tier: thorough
 //@ functions: <layers::encrypt::EncryptionLayerWriter<W> as std::io::Write>::write (roll-over arm); EncryptionLayerWriter::renew_cipher; AesGcm256::into_tag; build_nonce; AesGcm256::encrypt over model primitives
@@ -1808,7 +1809,7 @@ fn copy_small_enc<R: Read + ?Sized, W: Write + ?Sized>(r: &mut R, w: &mut W) -> 
     Ok(n as u64)
 }
 
-//@ props: C01 C06
+//@ props: C01 C06 C13
 //@ scaled: yes
 //@ functions: <layers::encrypt::EncryptionLayerWriter<W> as layers::traits::LayerWriter>::finalize; renew_cipher; AesGcm256::into_tag
 //@ bounds: SCALED build; chunk offset 0..=4, any counter < 2^32-1
@@ -1830,6 +1831,8 @@ fn h_enc_writer_finalize() {
     let mut w = mk_writer(off, ctr, key, prefix, pending);
     kani::cover!(off == 0, "finalize right after a roll-over or on an empty stream");
     kani::cover!(off == SPEC_CHUNK, "finalize on a full chunk: exactly one tag, no empty extra chunk");
+    // the sink takes only ONE byte of the first write it sees: the tag must be written with write_all
+    unsafe { REC_FIRST_ACCEPT = 1 };
     let r = w.finalize();
     let okk = r.is_ok();
     core::mem::forget(r);
